@@ -293,6 +293,13 @@ impl Module {
         if lhs < rhs {
             std::mem::swap(&mut lhs, &mut rhs);
         }
+        if lhs == rhs {
+            // swapping a card with itself changes nothing, the index still has to be valid
+            return self
+                .get_card(lhs)
+                .map(|_| ())
+                .map_err(|err| SwapError::FetchError(lhs.clone(), err));
+        }
 
         let rhs_card = self
             .replace_card(rhs, CardBody::ScalarNil.into())
